@@ -228,6 +228,13 @@ def run(res):
         inputs.append(("template", "x := 5\n'" + body + "'"))
     for body in ("{}", "a{}b", "{ }", "{x}-{ }-{x}", "{}{}", "{x}{}", "{/*c*/}", "{#c\n}"):
         inputs.append(("template", "x := 5\n'" + body + "'"))
+    # the host calls into the code by name (risor.Call): names that were declared but never assigned, names of values
+    # that are not functions, functions that fail, overflow the stack or expect arguments
+    for src in ("if false { y := 1 }", "for i := range 0 { z := i }", "func f() { return 1 }\nif false { g := f }",
+                "x := 1\nswitch x { case 2: w := 3 }", "f := func(a, b) { return a + b }", "func f() { return f() }",
+                "func f() { return [1][5] }", "func f() { error(\"no\") }", "c := chan()\nl := [1]\nm := {1: 2}",
+                "try(func() { q := [1][2] })", "const k = 1\nfunc g(a=1) { return a }"):
+        inputs.append(("host-call", src))
     inputs.append(("thread:deep-recursion", "func f(n) { return f(n+1) }\nt := spawn(f, 0)\nt.wait()"))
     inputs.append(("thread:deep-recursion-go", "func f(n) { return f(n+1) }\ngo f(0)\nfor i := range 300000 { }\n1"))
     inputs.append(("thread:big-stack", "t := spawn(func() { return [" + ", ".join(["1"] * 3000) + "] })\nt.wait()"))
